@@ -15,7 +15,7 @@ import copy, json, os
 VOCAB = os.path.join(os.path.dirname(os.path.abspath(__file__)), 'baseline_fns.json')
 # one-line helpers of the reviewed tree that the rules look through: whether a maintainer keeps them as functions or
 # writes their bodies in place is the same program to every rule
-TRANSPARENT_HELPERS = {'gm_sm4::el', 'gm_sm4::el_prime'}
+TRANSPARENT_HELPERS = {'gm_sm4::el', 'gm_sm4::el_prime', 'gm_zuc::make_u32'}
 MAX_BLOCKS = 4000
 
 
